@@ -108,12 +108,12 @@ CLAIMED.update({
     "C01": {
         "text": "Theorems: (record level, all 16 scalar kinds) one record of a scalar field decodes to the value it was made from, consuming exactly its own bytes; a packed payload decodes "
                 "to exactly its list; packed chunks concatenate. (message level) roundtrip_nested_partial: for ALL schemas and ALL well-typed values (MsgOk: any number of fields, each flat scalar "
-                "— singular, proto3-optional, oneof member, repeated packed or not —, a nested / recursive / repeated sub-message to any depth, a Timestamp / Duration, a wrapper, or a map with "
-                "integer / bool / string keys and scalar or message values; arbitrary unknown fields at every level) parse(bytes(m)) succeeds, has the same class, oneof selection and unknown fields "
+                "— singular, proto3-optional, oneof member, repeated packed or not —, a nested / recursive / repeated sub-message to any depth, a singular or repeated Timestamp / Duration, a wrapper, or a map with "
+                "integer / bool / string keys and scalar, message or Timestamp / Duration values; arbitrary unknown fields at every level) parse(bytes(m)) succeeds, has the same class, oneof selection and unknown fields "
                 "at every level, holds in every slot an equivalent value or (where the original emitted no byte) the unset default, and encodes to the same bytes; proved by strong induction on the "
                 "decoder's nesting fuel (the payload of a nested record is strictly shorter than the record) over a per-slot decoder-state invariant. MsgOk is decided exactly by the executable msgOkB "
-                "(sound and complete), which the driver evaluates on every generated case: the evidence records how many cases lie inside the theorem's hypothesis. PARTIAL: repeated Timestamp / "
-                "Duration fields and maps with Timestamp / Duration values; that every MsgOk value can be encoded (the theorem takes the encoding as a hypothesis); that Python == contains the "
+                "(sound and complete), which the driver evaluates on every generated case: the evidence records how many cases lie inside the theorem's hypothesis (all of them at the time of writing). PARTIAL: repeated wrapper "
+                "fields; that every MsgOk value can be encoded (the theorem takes the encoding as a hypothesis); that Python == contains the "
                 "relation ValEqv (it identifies -0.0 with +0.0 inside wrappers and an empty map-value message with the fresh instance). Those are covered by the differential correspondence and the oracle.",
         "note": TB + "in-range = WellTyped.lean (ints in the declared range, float32 patterns a Python float can hold, valid UTF-8, datetimes / timedeltas in the protobuf range); encodings shorter than 2^64 bytes; oneof members not `optional` (standard dataclasses); dict keys pairwise different.",
         "technique": "Lean 4 proof (strong induction on decoder fuel; per-slot decoder-state invariant; per-kind record inverses; decidable domain predicate) + differential correspondence + round-trip oracle",
